@@ -258,21 +258,21 @@ func c19WriterLeg(rc *sim.RunCtx, w *world.World) {
 		}
 		switch kind {
 		case "getdata":
-			st := world.NewFakeStream[*sdcpb.GetDataResponse](w.Ctx, name, plan, rc.Logf)
+			st := world.NewFakeStream[*sdcpb.GetDataResponse](w.Ctx, name, plan, nil)
 			go func() {
 				defer fin()
 				w.Srv.GetData(&sdcpb.GetDataRequest{Name: world.DSName, Path: []*sdcpb.Path{root}, Datastore: &sdcpb.DataStore{Type: sdcpb.Type_MAIN}, Encoding: sdcpb.Encoding_STRING, DataType: sdcpb.DataType_CONFIG}, st)
 			}()
 			return st.End
 		case "subscribe":
-			st := world.NewFakeStream[*sdcpb.SubscribeResponse](w.Ctx, name, plan, rc.Logf)
+			st := world.NewFakeStream[*sdcpb.SubscribeResponse](w.Ctx, name, plan, nil)
 			go func() {
 				defer fin()
 				w.Srv.Subscribe(&sdcpb.SubscribeRequest{Name: world.DSName, Subscription: []*sdcpb.Subscription{{Path: []*sdcpb.Path{root}, SampleInterval: uint64(time.Second), DataType: sdcpb.DataType_CONFIG}}}, st)
 			}()
 			return st.End
 		default:
-			st := world.NewFakeStream[*sdcpb.WatchDeviationResponse](world.PeerCtx(w.Ctx, map[string]string{"A": "10.0.0.9:1001", "B": "10.0.0.9:1002"}[name]), name, plan, rc.Logf)
+			st := world.NewFakeStream[*sdcpb.WatchDeviationResponse](world.PeerCtx(w.Ctx, map[string]string{"A": "10.0.0.9:1001", "B": "10.0.0.9:1002"}[name]), name, plan, nil)
 			go func() {
 				defer fin()
 				w.Srv.WatchDeviations(&sdcpb.WatchDeviationRequest{Name: []string{world.DSName}}, st)
